@@ -26,3 +26,33 @@ contract("_FindChangesForModule._manage_writes", source=M + "_FindChangesForModu
              "        final(result)[val(self.set_index)] == strip_of(str_join('', old(result)[val(self.set_index):len(old(result))] + "
              "                 [src_of(self)[old(self.last_modified):val(old(self.last_set))]])) + ')')"],
          note="the value of the assignment is everything copied since the setter call was opened plus the source up to the end of the assignment, stripped, then `)`")
+
+# ---- CPython cross-check on a real _FindChangesForModule (source given through a stand-in pymodule) ------------------------------------------
+class _XcPm:
+    def __init__(self, src):
+        self.source_code = src
+
+
+def _xc_mw_domain(tier, seed):
+    src = "obj.attr = value + 1\nrest = obj.attr\n"
+    for last_modified in (0, 5, 11):
+        for last_set in (None, 11, 20, 21):
+            for offset in (0, 10, 11, 20, 21, 30):
+                for pieces in ([], ["set_attr("], ["x", "set_attr(", " value"]):
+                    for set_index in (0, 1, len(pieces)):
+                        if set_index <= len(pieces):
+                            yield (src, last_modified, last_set, offset, pieces, set_index)
+
+
+def _xc_mw_build(case):
+    from rope.refactor import encapsulate_field as ef
+    src, lm, ls, offset, pieces, si = case
+    f = object.__new__(ef._FindChangesForModule)
+    f.resource, f.pymodule = None, _XcPm(src)
+    f.last_modified, f.last_set, f.set_index = lm, ls, si
+    return {"self": f, "offset": offset, "result": list(pieces)}
+
+
+bounded_check(name="c17-manage-writes-native", props=["C17"], contract="_FindChangesForModule._manage_writes", build=_xc_mw_build, domain=_xc_mw_domain, exhaustive=True,
+              env={"src_of": lambda f: f.source, "strip_of": lambda s: s.strip(), "str_join": lambda sep, parts: sep.join(parts)},
+              label="CPython cross-check: _manage_writes' contract on a real object: pending / no pending setter call x offsets before, AT and after the end of the assignment")
